@@ -35,7 +35,7 @@ INVS = ["AtMostOnce", "CancelMeansNeverRun", "RightFuture", "SlotConservation", 
         "TimeoutNeverBreaks", "CleanHandshakeOnly", "NoTimeoutWhileHolding"]
 # behaviour of the code as it is now (flipped by fix: commits); D17 = CancelWakes
 CODE_SWITCHES = {k: v for k, v in json.load(open(os.path.join(tlc.SPECS, "code_switches.json"))).items()
-                 if k in ("WakeAfterSpawn", "KeepRefs", "SafeFail", "CancelWakes", "JoinWatches", "CloseReaderOnKill")}
+                 if k in ("WakeAfterSpawn", "KeepRefs", "SafeFail", "CancelWakes", "JoinWatches", "CloseReaderOnKill", "ExitChecked")}
 
 
 def write_cfg(work, name, switches=None, invariants=INVS, spec="SpecF", symmetry=True, extra=""):
